@@ -16,6 +16,7 @@ Recognised shape (statements may be nested in if/else/for/with/try bodies of que
 """
 import ast
 import os
+from ..repo_root import REPO
 
 
 def _is_name(n, s):
@@ -250,7 +251,7 @@ def analyse_query(cls, fn, rel, clsnode=None):
     return sites
 
 
-def scan(root="/repo/skactiveml/pool"):
+def scan(root=REPO + "/skactiveml/pool"):
     """-> (sites, custom): sites = one record per `return simple_batch` in a query() method;
     custom = classes whose query() has no such return (hand-written loops / delegation)."""
     sites, custom = [], []
@@ -258,7 +259,7 @@ def scan(root="/repo/skactiveml/pool"):
         if not f.endswith(".py"):
             continue
         path = os.path.join(root, f)
-        rel = os.path.relpath(path, "/repo")
+        rel = os.path.relpath(path, REPO)
         tree = ast.parse(open(path).read())
         for node in tree.body:
             if not isinstance(node, ast.ClassDef):
